@@ -1,9 +1,16 @@
 #[path = "../../h_zvariant/src/bridge.rs"]
 #[allow(dead_code, unexpected_cfgs)]
 mod bridge;
+mod c26;
+#[path = "../../h_zbus/src/env.rs"]
+#[allow(dead_code)]
+mod env;
 mod generated;
 mod genval;
 mod ifcheck;
+#[path = "../../h_zbus/src/sched.rs"]
+#[allow(dead_code)]
+mod sched;
 mod typecheck;
 
 use vcore::harness::*;
@@ -22,6 +29,16 @@ fn c09_case(src: &mut Src, obs: &mut Obs) -> CaseResult {
     (e.check)(e, src, obs)
 }
 
+fn program_facts(run: &mut Run) {
+    let ifs = c26::ifaces();
+    run.extra.insert("program_seed".into(), serde_json::json!(generated::SEED));
+    run.extra.insert("programs".into(), serde_json::json!(1));
+    run.extra.insert("interfaces_in_program".into(), serde_json::json!(ifs.len()));
+    run.extra.insert("methods_in_program".into(), serde_json::json!(ifs.iter().map(|i| i.methods.len()).sum::<usize>()));
+    run.extra.insert("properties_in_program".into(), serde_json::json!(ifs.iter().map(|i| i.props.len()).sum::<usize>()));
+    run.extra.insert("signals_in_program".into(), serde_json::json!(ifs.iter().map(|i| i.signals.len()).sum::<usize>()));
+}
+
 fn main() {
     let args = parse_args("h_prog");
     let id = args.id.as_str();
@@ -29,11 +46,18 @@ fn main() {
     let specs: Vec<Spec> = match id {
         "C09" => {
             let n = generated::types().len();
-            run.rule = format!("a generated crate of {n} random type definitions per program (named / tuple / newtype / unit structs, unit enums with default, repr and string representation, data-carrying enums, dictionary structs with optional fields and renaming, nested over integers, floats, strings, object paths, variants, Vec, HashMap, BTreeMap, tuples and arrays), compiled against the library; for every type the generator's own table gives the expected signature; each type is exercised with generated values, both endians, offsets 0..15; oracle: declared signature == expected, the bytes are a strictly valid D-Bus encoding of the expected signature per the independent reference decoder (consuming everything), serialized_size agrees, decode(encode(v)) == v; non-trivial = a type nesting at least 2 derived types, or an enum / dictionary struct; distinct by hash(type, bytes)");
+            run.rule = format!("a generated crate of {n} random type definitions per program (named / tuple / newtype / unit structs, structs deriving Value/OwnedValue, unit enums with default, repr and string representation, data-carrying enums, dictionary structs with optional fields and renaming, nested over integers, floats, strings, object paths, variants, char, Ipv4Addr, IpAddr, Duration, NonZero, Wrapping, Vec, VecDeque, BTreeSet, Box, HashMap, BTreeMap, tuples and arrays; every enum / dictionary kind additionally inside arrays, dictionaries, tuples and newtype variants), compiled against the library; for every type the generator's own table gives the expected signature and the reference value of each Rust value; each type is exercised with generated values, both endians, offsets 0..15; oracle: declared signature == expected, the bytes are a strictly valid D-Bus encoding of the expected signature per the independent reference decoder (consuming everything) and denote the predicted value, serialized_size agrees, decode(encode(v)) == v, decode(reference encoding of the predicted value) == v, and derived Value / OwnedValue conversions round-trip with the expected signature; non-trivial = a type nesting at least 2 derived types, or an enum / dictionary struct, or a Value conversion; distinct by hash(type, bytes)");
             run.extra.insert("program_seed".into(), serde_json::json!(generated::SEED));
             run.extra.insert("programs".into(), serde_json::json!(1));
             run.extra.insert("types_in_program".into(), serde_json::json!(n));
             vec![spec("types", 60_000, 600_000, 200, c09_case)]
+        }
+        "C26" => {
+            program_facts(&mut run);
+            run.rule = "a generated crate of interfaces per program (methods with random argument / return types over std and derived types, sync / async, &self / &mut self, infallible / fdo::Result / custom error, header / emitter / connection / server parameters, renames, out-arg names); per case 1-3 interfaces registered on a tree of 5 paths and a burst of 1-5 raw calls from a reference-built peer, each valid or wrong in exactly one aspect (path incl. existing nodes without the interface, interface incl. one registered elsewhere, member incl. other interfaces' / property / signal names, arguments missing / extra / of another type), with and without the no-reply flag, either endianness, one chunk or several, under a generated executor schedule; oracle: handlers ran exactly for the valid calls with the arguments sent (handler log), exactly one reply per call (none with the no-reply flag), reply body == the value predicted from the handler's label with the declared signature, handler errors by name and text, emitted signals as declared, otherwise the named standard error; non-trivial = a burst with at least one call wrong in exactly one aspect; distinct by hash(kinds, labels)".into();
+            let mut s = spec("dispatch", 6_000, 300_000, 160, c26::c26_case);
+            s.threads = 0;
+            vec![s]
         }
         _ => {
             eprintln!("unknown property {id} for h_prog");
